@@ -890,6 +890,252 @@ fn c18_runs(input: &Input, ctx: &mut Ctx) -> CaseResult {
     Ok(())
 }
 
+
+// ---------------------------------------------------------------------------------------
+// every Unicode scalar value, in a handful of positions (C16, C17, C18)
+
+/// code points for which the packet paths are exercised as well as the constructor: everything below
+/// U+3000, the noncharacters (U+FDD0..U+FDEF, the last two of every plane), plane starts, the surrogate
+/// neighbours and a stride through the rest
+fn cp_wants_packets(c: u32) -> bool {
+    c < 0x3000 || (0xFDD0..=0xFDEF).contains(&c) || (c & 0xFFFF) >= 0xFFFE || (c & 0xFFFF) == 0 || (0xD7F0..=0xE00F).contains(&c) || (0xFE00..=0xFFFF).contains(&c) || c % 61 == 0
+}
+
+fn filter_templates(c: char) -> [String; 7] {
+    [
+        format!("{}", c),
+        format!("a{}", c),
+        format!("{}/+", c),
+        format!("a/{}{}/#", c, c),
+        format!("$share/{}/t", c),
+        format!("$share/g/{}", c),
+        format!("$share/g{}/{}/+", c, c),
+    ]
+}
+
+fn name_templates(c: char) -> [String; 5] {
+    [format!("{}", c), format!("a/{}", c), format!("$SYS/{}", c), format!("{}{}/b", c, c), format!("$share/{}", c)]
+}
+
+/// nums = [first code point, count]
+fn c16_codepoints(input: &Input, ctx: &mut Ctx) -> CaseResult {
+    let n = input.nums();
+    let mut chars = 0u64;
+    let (mut valid, mut invalid) = (0u64, 0u64);
+    for cp in n[0]..n[0] + n[1] {
+        let c = match char::from_u32(cp as u32) {
+            Some(c) => c,
+            None => continue, // surrogates are not scalar values; their encodings are covered as ill-formed UTF-8
+        };
+        chars += 1;
+        let packets = cp_wants_packets(cp as u32);
+        for (ti, s) in filter_templates(c).iter().enumerate() {
+            match check_filter(s, packets || ti == 0, false) {
+                Ok(true) => valid += 1,
+                Ok(false) => invalid += 1,
+                Err(m) => {
+                    ctx.refine = Some(("c16.single", Input::Text(s.clone().into_bytes())));
+                    return Err(Violation::new(format!("code point U+{:04X}: {}", cp, m)));
+                }
+            }
+        }
+    }
+    ctx.more_evals((chars * 7).saturating_sub(1));
+    ctx.count_distinct(chars * 7);
+    ctx.label_n("code-points", chars);
+    ctx.label_n("valid", valid);
+    ctx.label_n("invalid", invalid);
+    if n[0] == 0x2000 {
+        ctx.sample(|| "U+2000.. : each scalar value alone, after 'a', as a level, doubled before '#', as share name, as shared filter".to_string());
+    }
+    Ok(())
+}
+
+fn c17_codepoints(input: &Input, ctx: &mut Ctx) -> CaseResult {
+    let n = input.nums();
+    let mut chars = 0u64;
+    let mut shared = 0u64;
+    for cp in n[0]..n[0] + n[1] {
+        let c = match char::from_u32(cp as u32) {
+            Some(c) => c,
+            None => continue,
+        };
+        chars += 1;
+        let ts = filter_templates(c);
+        for s in ts.iter() {
+            if !specpred::filter_valid(s) {
+                continue;
+            }
+            match check_shared_parts(s) {
+                Ok(sh) => shared += sh as u64,
+                Err(m) => {
+                    ctx.refine = Some(("c17.single", Input::Text(s.clone().into_bytes())));
+                    return Err(Violation::new(format!("code point U+{:04X}: {}", cp, m)));
+                }
+            }
+        }
+        // comparisons between the filters built around this code point and around its neighbour
+        if let Some(d) = char::from_u32(cp as u32 + 1) {
+            let a = &ts[4];
+            let b = format!("$share/{}/t", d);
+            if specpred::filter_valid(a) && specpred::filter_valid(&b) {
+                if let Err(m) = check_relations(a, &b, &ts[5]) {
+                    return Err(Violation::new(format!("code point U+{:04X}: {}", cp, m)));
+                }
+            }
+        }
+    }
+    ctx.more_evals((chars * 7).saturating_sub(1));
+    ctx.count_distinct(chars * 7);
+    ctx.label_n("code-points", chars);
+    ctx.label_n("shared-filters", shared);
+    Ok(())
+}
+
+fn c18_codepoints(input: &Input, ctx: &mut Ctx) -> CaseResult {
+    let n = input.nums();
+    let mut chars = 0u64;
+    let (mut valid, mut invalid) = (0u64, 0u64);
+    for cp in n[0]..n[0] + n[1] {
+        let c = match char::from_u32(cp as u32) {
+            Some(c) => c,
+            None => continue,
+        };
+        chars += 1;
+        let packets = cp_wants_packets(cp as u32);
+        for (ti, s) in name_templates(c).iter().enumerate() {
+            match check_name(s, packets || ti == 0, false) {
+                Ok(true) => valid += 1,
+                Ok(false) => invalid += 1,
+                Err(m) => {
+                    ctx.refine = Some(("c18.single", Input::Text(s.clone().into_bytes())));
+                    return Err(Violation::new(format!("code point U+{:04X}: {}", cp, m)));
+                }
+            }
+        }
+    }
+    ctx.more_evals((chars * 5).saturating_sub(1));
+    ctx.count_distinct(chars * 5);
+    ctx.label_n("code-points", chars);
+    ctx.label_n("valid", valid);
+    ctx.label_n("invalid", invalid);
+    Ok(())
+}
+
+pub const C16_CODEPOINTS: Sub = Sub { name: "c16.codepoints", f: c16_codepoints };
+pub const C17_CODEPOINTS: Sub = Sub { name: "c17.codepoints", f: c17_codepoints };
+pub const C18_CODEPOINTS: Sub = Sub { name: "c18.codepoints", f: c18_codepoints };
+
+const CP_BLOCK: u64 = 2_048;
+const CP_BLOCKS: u64 = 0x11_0000 / CP_BLOCK;
+
+// ---------------------------------------------------------------------------------------
+// prefix shapes composed with each other ("$share/g/$share/x", "$SYS/$share/...", ...) followed by short tails
+
+/// nums = [first prefix, second prefix, tail length, start, count]
+fn c16_nested(input: &Input, ctx: &mut Ctx) -> CaseResult {
+    let n = input.nums();
+    let (p1, p2, len, start, count) = (n[0] as usize, n[1] as usize, n[2] as usize, n[3], n[4]);
+    let prefix = format!("{}{}", FILTER_PREFIXES[p1], FILTER_PREFIXES[p2]);
+    let (mut valid, mut shared) = (0u64, 0u64);
+    for i in start..start + count {
+        let s = nth_string(FILTER_ALPHA, len, i, &prefix);
+        match check_filter(&s, i % 4 == 0, false) {
+            Ok(v) => {
+                if v {
+                    valid += 1;
+                    shared += s.starts_with("$share/") as u64;
+                }
+            }
+            Err(m) => {
+                ctx.refine = Some(("c16.single", Input::Text(s.into_bytes())));
+                return Err(Violation::new(m));
+            }
+        }
+    }
+    ctx.more_evals(count.saturating_sub(1));
+    ctx.count_distinct(count);
+    ctx.label_n("valid", valid);
+    ctx.label_n("valid-shared", shared);
+    ctx.label_n("invalid", count - valid);
+    if start == 0 && len == 2 && p1 == 4 {
+        ctx.sample(|| format!("prefix {:?} + all tails of length {}", prefix, len));
+    }
+    Ok(())
+}
+
+/// the valid filters of the same space: accessors against the unique split (C17)
+fn c17_nested(input: &Input, ctx: &mut Ctx) -> CaseResult {
+    let n = input.nums();
+    let (p1, p2, len, start, count) = (n[0] as usize, n[1] as usize, n[2] as usize, n[3], n[4]);
+    let prefix = format!("{}{}", FILTER_PREFIXES[p1], FILTER_PREFIXES[p2]);
+    let (mut valid, mut shared) = (0u64, 0u64);
+    for i in start..start + count {
+        let s = nth_string(FILTER_ALPHA, len, i, &prefix);
+        if !specpred::filter_valid(&s) {
+            continue;
+        }
+        valid += 1;
+        match check_shared_parts(&s) {
+            Ok(sh) => shared += sh as u64,
+            Err(m) => {
+                ctx.refine = Some(("c17.single", Input::Text(s.into_bytes())));
+                return Err(Violation::new(m));
+            }
+        }
+    }
+    ctx.more_evals(valid.saturating_sub(1));
+    ctx.count_distinct(valid);
+    ctx.label_n("valid", valid);
+    ctx.label_n("shared-filters", shared);
+    Ok(())
+}
+
+/// nums = [first prefix, second prefix, tail length, start, count]
+fn c18_nested(input: &Input, ctx: &mut Ctx) -> CaseResult {
+    let n = input.nums();
+    let (p1, p2, len, start, count) = (n[0] as usize, n[1] as usize, n[2] as usize, n[3], n[4]);
+    let prefix = format!("{}{}", NAME_PREFIXES[p1], NAME_PREFIXES[p2]);
+    let mut valid = 0u64;
+    for i in start..start + count {
+        let s = nth_string(NAME_ALPHA, len, i, &prefix);
+        match check_name(&s, i % 4 == 0, false) {
+            Ok(v) => valid += v as u64,
+            Err(m) => {
+                ctx.refine = Some(("c18.single", Input::Text(s.into_bytes())));
+                return Err(Violation::new(m));
+            }
+        }
+    }
+    ctx.more_evals(count.saturating_sub(1));
+    ctx.count_distinct(count);
+    ctx.label_n("valid", valid);
+    ctx.label_n("invalid", count - valid);
+    Ok(())
+}
+
+pub const C16_NESTED: Sub = Sub { name: "c16.nested-prefixes", f: c16_nested };
+pub const C18_NESTED: Sub = Sub { name: "c18.nested-prefixes", f: c18_nested };
+pub const C17_NESTED: Sub = Sub { name: "c17.nested-prefixes", f: c17_nested };
+
+fn nested_blocks(alpha: usize, nprefix: usize, max_len: usize) -> Vec<Input> {
+    let mut v = Vec::new();
+    for p1 in 1..nprefix {
+        for p2 in 1..nprefix {
+            for len in 0..=max_len {
+                let total = (alpha as u64).pow(len as u32);
+                let mut s = 0;
+                while s < total {
+                    let c = BLOCK.min(total - s);
+                    v.push(Input::Nums(vec![p1 as u64, p2 as u64, len as u64, s, c]));
+                    s += c;
+                }
+            }
+        }
+    }
+    v
+}
+
 pub const C16_RUNS: Sub = Sub { name: "c16.runs", f: c16_runs };
 pub const C18_RUNS: Sub = Sub { name: "c18.runs", f: c18_runs };
 pub const C16_RANDOM: Sub = Sub { name: "c16.random-long", f: c16_random };
@@ -905,7 +1151,7 @@ pub const C18_BLOCK: Sub = Sub { name: "c18.block", f: c18_block };
 pub const C18_SINGLE: Sub = Sub { name: "c18.single", f: c18_single };
 
 pub fn subs() -> Vec<Sub> {
-    vec![C16_RUNS, C18_RUNS, C16_BLOCK, C16_SINGLE, C16_RANDOM, C17_BLOCK, C17_SINGLE, C17_TRIPLE, C17_RANDOM, C18_BLOCK, C18_SINGLE, C18_RANDOM]
+    vec![C16_CODEPOINTS, C17_CODEPOINTS, C18_CODEPOINTS, C16_NESTED, C17_NESTED, C18_NESTED, C16_RUNS, C18_RUNS, C16_BLOCK, C16_SINGLE, C16_RANDOM, C17_BLOCK, C17_SINGLE, C17_TRIPLE, C17_RANDOM, C18_BLOCK, C18_SINGLE, C18_RANDOM]
 }
 
 const BLOCK: u64 = 4_096;
@@ -940,6 +1186,14 @@ pub fn run_c16(env: &mut Env) -> RunResult {
         .map(|s| Input::Text(s.as_bytes().to_vec()))
         .collect();
     env.run_inputs(C16_SINGLE, &reg)?;
+    env.run_enum(C16_CODEPOINTS, CP_BLOCKS, true, |i| Input::Nums(vec![i * CP_BLOCK, CP_BLOCK]))?;
+    env.require("c16.codepoints", "valid");
+    env.require("c16.codepoints", "invalid");
+    let nb = nested_blocks(FILTER_ALPHA.len(), FILTER_PREFIXES.len(), env.tier.sel(3, 4));
+    let nn = nb.len() as u64;
+    env.run_enum(C16_NESTED, nn, true, move |i| nb[i as usize].clone())?;
+    env.require("c16.nested-prefixes", "valid-shared");
+    env.require("c16.nested-prefixes", "invalid");
     let total = run_count(FILTER_SPECIALS);
     env.run_enum(C16_RUNS, total.div_ceil(2_048), true, |i| Input::Nums(vec![i * 2_048, 2_048]))?;
     env.require("c16.runs", "valid");
@@ -968,6 +1222,12 @@ pub fn run_c17(env: &mut Env) -> RunResult {
         .map(|s| Input::Text(s.as_bytes().to_vec()))
         .collect();
     env.run_inputs(C17_SINGLE, &reg)?;
+    env.run_enum(C17_CODEPOINTS, CP_BLOCKS, true, |i| Input::Nums(vec![i * CP_BLOCK, CP_BLOCK]))?;
+    env.require("c17.codepoints", "shared-filters");
+    let nb = nested_blocks(FILTER_ALPHA.len(), FILTER_PREFIXES.len(), env.tier.sel(3, 4));
+    let nn = nb.len() as u64;
+    env.run_enum(C17_NESTED, nn, true, move |i| nb[i as usize].clone())?;
+    env.require("c17.nested-prefixes", "shared-filters");
     env.run_tapes(C17_RANDOM, env.tier.sel(4_000, 600_000), 60)?;
     env.require("c17.random", "multi-byte-share-name");
     env.require("c17.random", "shared-filter-begins-with-slash");
@@ -982,6 +1242,12 @@ pub fn run_c18(env: &mut Env) -> RunResult {
     let n = b.len() as u64;
     env.run_enum(C18_BLOCK, n, true, move |i| b[i as usize].clone())?;
     env.run_inputs(C18_SINGLE, &long_names())?;
+    env.run_enum(C18_CODEPOINTS, CP_BLOCKS, true, |i| Input::Nums(vec![i * CP_BLOCK, CP_BLOCK]))?;
+    env.require("c18.codepoints", "valid");
+    env.require("c18.codepoints", "invalid");
+    let nb = nested_blocks(NAME_ALPHA.len(), NAME_PREFIXES.len(), env.tier.sel(3, 4));
+    let nn = nb.len() as u64;
+    env.run_enum(C18_NESTED, nn, true, move |i| nb[i as usize].clone())?;
     let total = run_count(NAME_SPECIALS);
     env.run_enum(C18_RUNS, total.div_ceil(2_048), true, |i| Input::Nums(vec![i * 2_048, 2_048]))?;
     env.require("c18.runs", "valid");
